@@ -213,7 +213,25 @@ class Online:
         ch.close()
         return outcome
 
-    def run(self, nsessions=None, observe_pairs=30, nvec=8):
+    def regen_phase(self, D, nfiles):
+        """delete drf_properties.h5, regenerate it from one data file, read everything again, reopen a session"""
+        rng, ch, cc = self.rng, self.ch, self.cc
+        for d in D:
+            fin, _ = ch.scan(d)
+            js = sorted(fin)
+            rng.shuffle(js)
+            for j in js[:nfiles]:
+                ch.regen(d, j)
+                ch.observe([d], rng, npairs=10, nvec=3)
+            if js and rng.random() < 0.7:
+                # a new session with the original parameters must be accepted by the regenerated channel
+                lo, hi = self.region(d)
+                start = cc.bound[max(fin)]  # first sample after the last finalized window
+                if start <= hi:
+                    self.session(d, start, 1, maxcalls=2)
+                    ch.observe([d], rng, npairs=6, nvec=1)
+
+    def run(self, nsessions=None, observe_pairs=30, nvec=8, regen=0):
         rng, ch, cc = self.rng, self.ch, self.cc
         nsessions = nsessions or rng.choice([1, 1, 2, 2, 3])
         ends = {}
@@ -245,6 +263,8 @@ class Online:
                 ch.observe(D, rng, npairs=observe_pairs, nvec=nvec)
                 if cc.nd > 1 and len(D) > 1 and rng.random() < 0.5:
                     ch.observe([rng.choice(D)], rng, npairs=8, nvec=2)
+        if regen:
+            self.regen_phase(sorted(ends), regen)
 
 
 def run_random(digital_rf, root, rng, seed, name, **kw):
@@ -253,9 +273,12 @@ def run_random(digital_rf, root, rng, seed, name, **kw):
         shutil.rmtree(root)
     os.makedirs(root)
     p1 = cc.params()
-    ch = cd.Channel(digital_rf, root, cc, [p1, mismatch_params(rng, p1)])
+    if kw.get("cdriver"):
+        ch = cd.CChannel(digital_rf, root, cc, [p1, mismatch_params(rng, p1)], kw["cdriver"])
+    else:
+        ch = cd.Channel(digital_rf, root, cc, [p1, mismatch_params(rng, p1)])
     Online(rng, ch, **{k: v for k, v in kw.items() if k in ("bad_rate", "empty_rate", "blocks_rate", "observe_mid")}).run(
-        nsessions=kw.get("nsessions"), observe_pairs=kw.get("observe_pairs", 30), nvec=kw.get("nvec", 8)
+        nsessions=kw.get("nsessions"), observe_pairs=kw.get("observe_pairs", 30), nvec=kw.get("nvec", 8), regen=kw.get("regen", 0)
     )
     sc = ch.scenario(name)
     recs = ch.file_records
